@@ -29,6 +29,7 @@ func C01(c *fw.Ctx) {
 			emit(j)
 		}
 		hostileBytes(c, scale, e)
+		acceptedWorkload(c, c.Pick(1, 10), e)
 		macroGraphs(c, e)
 		includeGraphs(c, c.Pick(300, 20000), e)
 		if !c.Quick() {
